@@ -47,7 +47,12 @@ func (m *C08Monitor) AfterPass(r *Runner, pv *PassView) error {
 			continue
 		}
 		if specObjectIDs(r.W.Store, newest)[c.Key.Group+"/"+c.Key.Kind+"/"+c.Key.Namespace+"/"+c.Key.Name] {
-			return Violf("C08", "shared-object-deleted-during-handover",
+			circ := ""
+			if lifecycleOf(newest) == "Paused" && kubesim.AnnotationsOf(newest)["package-operator.run/paused-by-parent"] == "" {
+				// the newest revision was paused directly by the user: it reports Available from what it observes but adopts nothing
+				circ = ":newest-revision-paused-by-user"
+			}
+			return Violf("C08", "shared-object-deleted-during-handover"+circ,
 				"pass %d (%s %s): deleted %s although the newest revision %s (rev %d) of the deployment contains it",
 				pv.P.ID, pv.P.Controller, pv.P.Req.Name, c.Key, kubesim.MetaString(newest, "name"), setRevision(newest))
 		}
